@@ -45,14 +45,40 @@ Proof. exact hop_ok_real. Qed.
 
 (* Status and frame order: the first frame of every response is a HEADERS frame whose first field is
    :status = the status the handler chose (spec_status: the code of the first WriteHeader unless a Write or Flush came
-   first, else 200; status_field c = [(":status", decimal c)] for c <> 0); and every frame between that first HEADERS
-   and the last frame is a DATA frame -- so a trailers HEADERS frame can only be the last frame, after the whole body. *)
+   first, else 200; status_field c = [(":status", decimal c)] for c <> 0); no other field of that frame (nostat fl) and
+   no field of any later HEADERS frame is named :status; and every frame between that first HEADERS and the last frame
+   is a DATA frame -- so a trailers HEADERS frame can only be the last frame, after the whole body. *)
 Theorem C38_status_first_trailers_after_body : forall e ops,
   exists es fl rest,
     frames_of e ops = FH es (status_field (spec_status ops) ++ fl) :: rest
-    /\ (forall f, In f (removelast rest) -> is_FH f = false).
+    /\ (forall f, In f (removelast rest) -> is_FH f = false)
+    /\ nostat fl = true
+    /\ (forall f, In f rest -> match f with FH _ fl' => nostat fl' = true | FD _ _ => True end).
 Proof. exact status_first_trailers_last. Qed.
 Print Assumptions C38_status_first_trailers_after_body.
+
+(* Body-less statuses: when the handler's status is 1xx, 204 or 304 every Write is refused (result <> 0), so by
+   C38_body_exact no DATA byte is sent. *)
+Theorem C38_bodyless_statuses_refuse_writes : forall e ops fr res s,
+  run_handler e ops = (fr, res, s) -> body_allowed (spec_status ops) = false ->
+  forallb (fun r => negb (r =? 0)) res = true.
+Proof. exact bodyless_refused. Qed.
+Print Assumptions C38_bodyless_statuses_refuse_writes.
+
+(* THE central statement.  wf_C38 i (executable): the input decodes ([method bufsz hop script], method 0/1, bufsz > 0),
+   the hop list contains the canonical spelling of the five connection-specific names (true of HopHeaders), every
+   WriteHeader code is in 100..999.  On every such input the model's own observation run_C38 i satisfies the executable
+   predicate prop_C38 that the harness evaluates on the frames decoded from the real server: :status first and equal to
+   the handler's status and nowhere else, exactly one END_STREAM and on the last frame, all field names lower case and
+   not connection-specific, DATA payloads = the bytes written successfully (none for HEAD and body-less statuses), any
+   trailers HEADERS only as last frame, one result per Write.  kf_C38 is constantly 0 (the defects found were fixed). *)
+Theorem C38_central : forall i, wf_C38 i = true -> kf_C38 i = 0 -> prop_C38 i (run_C38 i) = true.
+Proof. exact prop_C38_central. Qed.
+Print Assumptions C38_central.
+
+(* a corpus case (declared, unset trailer) satisfies wf_C38 *)
+Example C38_corpus_case_wf : wf_C38 corpus_case = true /\ prop_C38 corpus_case (run_C38 corpus_case) = true.
+Proof. exact corpus_case_wf. Qed.
 
 (* Non-vacuity / regression witnesses.  Trailer declared but never set (before the repair: HEADERS, DATA and no
    END_STREAM at all): the stream ends with an empty DATA frame. *)
